@@ -451,14 +451,18 @@ theorem result_keeps_frame_form_after_convert (e : Eph) (conv : Pt → Pt) (d1 d
 current points -/
 def Fresh (e : Eph) : Prop := e.cache = none ∨ e.cache = some (e.pts.map (·.coord))
 
-/-- what can be done to an ephemeris between two interpolations -/
+/-- what can be done to an ephemeris between two interpolations (frame/form change, order and method setters) -/
 inductive EphOp where
   | interpolate (date : ℝ)
   | convert (conv : Pt → Pt)
+  | setOrder (k : Int)
+  | setMethod (m : Method)
 
 noncomputable def ephStep (e : Eph) : EphOp → Eph
   | .interpolate d => (e.interpolate d).2
   | .convert c => e.convert c
+  | .setOrder k => e.setOrder k
+  | .setMethod m => e.setMethod m
 
 theorem fresh_new (pts : List Pt) (m : Option Method) (o : Option Int) : Fresh (Eph.new pts m o) := Or.inl rfl
 
@@ -476,6 +480,18 @@ theorem fresh_step (e : Eph) (op : EphOp) (h : Fresh e) : Fresh (ephStep e op) :
     rcases h with h | h
     · left; simp [h]
     · right; simp [h]
+  | setOrder k => exact h
+  | setMethod m => exact h
+
+/-- **The order and method setters are honoured by the next interpolation** (they are read at every call, from
+the live interpolator): after `ephem.order = k` / `ephem.method = m` the ephemeris behaves as one built with
+that order / method on the same points. -/
+theorem setters_write_through (e : Eph) (k : Int) (m : Method) (date : ℝ) :
+    ((e.setOrder k).interpolate date).1 = (({ e with order := k } : Eph).interpolate date).1 ∧
+    ((e.setMethod m).interpolate date).1 = (({ e with method := m } : Eph).interpolate date).1 ∧
+    (ephStep e (.setOrder k)).order = k ∧ (ephStep e (.setMethod m)).method = m ∧
+    (ephStep e (.setOrder k)).pts = e.pts ∧ (ephStep e (.setMethod m)).pts = e.pts :=
+  ⟨rfl, rfl, rfl, rfl, rfl, rfl⟩
 
 /-- every state reachable from the constructor by interpolations and frame/form changes is fresh -/
 theorem fresh_reachable (pts : List Pt) (m : Option Method) (o : Option Int) (ops : List EphOp) :
@@ -500,7 +516,7 @@ theorem interpolate_fresh (e : Eph) (date : ℝ) (hc : Fresh e) (pt : Pt) (h : (
       exact hv
 
 /-- **The coordinates of an interpolated point are always interpolated from the current coordinates of the
-points** — whatever sequence of interpolations and frame/form changes the ephemeris has gone through since its
+points** — whatever sequence of interpolations, frame/form changes and order/method settings the ephemeris has gone through since its
 construction (so they are expressed in the frame/form the point is labelled with). -/
 theorem interpolate_uses_current_coordinates (pts : List Pt) (m : Option Method) (o : Option Int) (ops : List EphOp)
     (date : ℝ) (pt : Pt)
